@@ -362,6 +362,28 @@ def _assign_ops(shape, k0):
             for dt in ("float64", "int64"):
                 mk_val = (lambda vec, dt: lambda: np.array(vec, dtype=dt).reshape(len(vec), 1))(vec, dt)
                 ops.append(("subs_vector" if dt == "float64" else "subs_vector_int", "sptensor.__setitem__", w(mk_key, mk_val)))
+    # the listing order of a subscript-array assignment is a stored order too: rows and values permuted together denote
+    # the same assignment, so every listing must give the same tensor
+    distinct = [c for i, c in enumerate(cl) if c not in cl[:i]]
+    for rows, vec in (([distinct[0], distinct[-1]], [4.0, 6.0]),
+                      ([distinct[0], distinct[len(distinct) // 2], distinct[-1]], [4.0, 0.0, 6.0])):
+        if len({tuple(r) for r in rows}) != len(rows):
+            continue
+
+        def f(S, rows=rows, vec=vec):
+            outs = []
+            for perm in itertools.permutations(range(len(rows))):
+                T = S.copy()
+                with warnings.catch_warnings():
+                    warnings.simplefilter("ignore")
+                    T[np.array([rows[i] for i in perm], dtype=int).reshape(len(rows), N)] = np.array(
+                        [vec[i] for i in perm], dtype=float).reshape(len(rows), 1)
+                outs.append(canon(T, allow_zero=False))
+            for o in outs[1:]:
+                if o[1] != outs[0][1] or not np.array_equal(o[2], outs[0][2]):
+                    raise Malformed("listing_order_dependent")
+            return outs[0]
+        ops.append(("subs_vector_listing", "sptensor.__setitem__", f))
     if N == 1:
         for f in _index_forms(shape[0]):
             if f[0] in ("int", "slice"):
